@@ -607,3 +607,46 @@ func trunc(b []byte, n int) string {
 	}
 	return string(b)
 }
+
+// QuietExit is deferred by helper threads of a scripted process: it swallows the "process gone" unwinding.
+func QuietExit() {
+	if r := recover(); r != nil && r != any(procGone) {
+		panic(r)
+	}
+}
+
+// CrashSite extracts the first repository frame of a panic stack (stable call-site signature).
+func CrashSite(stack string) string {
+	for _, l := range strings.Split(stack, "\n") {
+		l = strings.TrimSpace(l)
+		if strings.HasPrefix(l, "go.amzn.com/lambda/") || strings.HasPrefix(l, "go.amzn.com/cmd/") {
+			if j := strings.LastIndex(l, "("); j > 0 {
+				l = l[:j]
+			}
+			return strings.TrimPrefix(l, "go.amzn.com/")
+		}
+	}
+	return "unknown"
+}
+
+var tsRe = regexp.MustCompile(`\d{4}-\d\d-\d\d \d\d:\d\d:\d\d[.\d]* \+\d{4} UTC( m=\+[\d.]+)?`)
+var ptrRe = regexp.MustCompile(`0x[0-9a-f]{6,}`)
+
+// CrashFailure renders an emulator crash as a failure with a stable signature and digest.
+func CrashFailure(e *sched.Exec, clause string) (string, string, *sched.Failure) {
+	site := CrashSite(e.Crash.Stack)
+	val := ptrRe.ReplaceAllString(tsRe.ReplaceAllString(e.Crash.Value, "<time>"), "0x..")
+	msg := "emulator crashed: panic in thread " + e.Crash.Name + ": " + val + "\n" + firstLines(e.Crash.Stack, 24)
+	if w := WorldOf(e); w != nil {
+		msg += "\n" + w.Render(false)
+	}
+	return "crash", "crash:" + site, &sched.Failure{Clause: clause, Sig: "crash:" + site, Msg: msg}
+}
+
+func firstLines(s string, n int) string {
+	l := strings.Split(s, "\n")
+	if len(l) > n {
+		l = l[:n]
+	}
+	return strings.Join(l, "\n")
+}
